@@ -511,6 +511,9 @@ func (w *World) addFnEffect(fn *ssa.Function, out *modInfo, seen map[*ssa.Functi
 		if libWritesArgs[fn.String()] {
 			out.top = true
 		}
+		if strings.HasPrefix(fn.String(), "(*strings.Builder)") || strings.HasPrefix(fn.String(), "(*bytes.Buffer)") {
+			out.names["Lib#content"] = true
+		}
 		return // library: assumed not to write package-visible memory
 	}
 	w.merge(out, w.modInfoOf(fn, seen))
@@ -595,6 +598,9 @@ func (w *World) inCycle(fn *ssa.Function) bool {
 
 func (w *World) calleeEffect(caller *ssa.Function, c *ssa.CallCommon, out *modInfo, seen map[*ssa.Function]bool) {
 	if c.IsInvoke() {
+		if _, ok := libInvoke[typeKey(c.Value.Type())+"."+c.Method.Name()]; ok {
+			out.names["Lib#rscur"] = true
+		}
 		mods, top := w.invokeModsSeen(c, seen)
 		if top {
 			// invoke on one of our own parameters: caller-dependent
@@ -743,6 +749,7 @@ func (w *World) loopMods(fn *ssa.Function, li *loopInfo) (map[string]bool, bool)
 	}
 	// library objects
 	mi.names["Lib#content"] = true
+	mi.names["Lib#rscur"] = true
 	return mi.names, mi.top
 }
 
